@@ -178,6 +178,16 @@ def r5_closures_over_loop_locals(ctx):
             # ... which is what the fn actually reads (Name loads) among the locals of the enclosing frames
             free = "ast.Load" in ht and any(isinstance(b, ast.BinOp) and isinstance(b.op, ast.BitAnd) for b in ast.walk(h))
             factory = factory or (top_is_loop and kinds_ok and wraps and passes and free)
+    if factory:
+        # what the factory takes by value must already be bound when it is called: the functions of a
+        # letfn* are assigned one after the other and may refer to those assigned later
+        lf = ctx.fn(GEN, "_letfn_to_py_ast")
+        reg = [c for c in P.calls(lf) if P.un(c.func).endswith("symbol_table.new_symbol") and len(c.args) >= 3]
+        kinds_txt = " ".join(P.un(x) for h2 in [P.find_def(gtree, "__fn_closed_over_current_locals")] if h2 is not None for x in ast.walk(h2) if isinstance(x, ast.Call) and P.un(x.func) == "frozenset")
+        bad_kind = [P.un(c.args[2]) for c in reg if P.un(c.args[2]) in kinds_txt]
+        ctx.ob("C01.R5", f"{GEN}::_letfn_to_py_ast::letfn functions are not captured by value", GEN, lf.lineno, bool(reg) and not bad_kind,
+               "" if reg and not bad_kind else f"letfn* registers its functions as {bad_kind or '?'}, a kind the loop-closure factory takes by value: a function that refers to a sibling assigned after it is handed an unbound name",
+               witness="(loop [i 0 acc []] (letfn [(a [] (b)) (b [] i)] (if (< i 3) (recur (inc i) (conj acc a)) acc))) => NameError: name 'b_N' is not defined")
     ok = not same_frame or captures or factory
     ctx.ob("C01.R5", f"{GEN}::_loop_to_py_ast::loop locals rebound in one frame are visible to closures", GEN, lp.lineno, ok,
            "" if ok else "closures created in a loop body capture the loop variable, not its value: after recur they all see the last value",
